@@ -45,7 +45,7 @@ def run(chk, repo):
     from .adapter_eval import adapter_values
     chk.rule("C03-T7", "every adapter used in these layouts decodes representative raw values as specified (evaluation of _decode)", 5)
     chk.attempt(adapter_values, chk, repo, L, "C03-T7", ("signal", "processed", "image_descriptor"))
-    chk.attempt(_t4_pending[0], chk, repo, L, _t4_pending[1], covered_by="adapter_values")
+    chk.attempt(_t4_pending[0], chk, repo, L, _t4_pending[1], covered_by="adapter_values", rules=("C03-T4",))
     from ..shapes_rules import link_tables
     link_tables(chk, repo, L, "C03")
     from .common_rules import record_type_dispatch, to_dict_contract, variable_conversion
